@@ -3,14 +3,15 @@ from harness import coqio as q
 from harness.pydrv import localsearch_drv as L
 
 ID = "C04"
-COQ_REQUIRE = ["Net", "M_Mgm", "M_Mgm2"]
+COQ_REQUIRE = ["Net", "M_Mgm", "M_Mgm2", "M_Mgm2r"]
 COQ_CASE_TYPE = "lcase"
 COQ_CHECK = "lcheck"
-COQ_PREAMBLE = ("Inductive lcase := CMgm (c : M_Mgm.case) (r : M_Mgm.rcase) | CMgm2 (c : M_Mgm2.case2).\n"
+COQ_PREAMBLE = ("Inductive lcase := CMgm (c : M_Mgm.case) (r : M_Mgm.rcase) "
+                "| CMgm2 (c : M_Mgm2.case2) (r : M_Mgm2r.r2case).\n"
                 "Definition lcheck (c : lcase) : bool := match c with CMgm x r => M_Mgm.check_case x && "
-                "M_Mgm.rcheck_case r | CMgm2 x => M_Mgm2.check_case2 x end.")
+                "M_Mgm.rcheck_case r | CMgm2 x r => M_Mgm2.check_case2 x && M_Mgm2r.r2check_case r end.")
 OBLIGATIONS = ['mgm_no_move_1opt_partial', 'mgm_isolated_1opt', 'mgm_improvable_moves_partial', 'mgm2_no_move_1opt_refuted',
-               'mgm_async_no_move_1opt']
+               'mgm_async_no_move_1opt', 'mgm2_no_commit_no_move_1opt_partial']
 N_QUICK, N_THOROUGH = 300, 6000
 PARALLEL = 8
 SHARD = 40
@@ -30,9 +31,14 @@ MODELLED = ("handler models of mgm.py / mgm2.py compared on full event traces, f
             "observed initial assignment with the observed draws and compared with the assignment at every cycle "
             "boundary of the asynchronous run. Theorems: round-level (all inputs) AND, since the deepening "
             "(P_Mgm3*.v), mgm_async_no_move_1opt about real asynchronous executions at cycle boundaries (the "
-            "refinement to mgm_next is proved for every schedule); MGM2: refutation witnesses only")
+            "refinement to mgm_next is proved for every schedule); MGM2: refutation witness of the unguarded "
+            "statement, plus (deepening 2, M_Mgm2r.v / P_Mgm2r.v) the ROUND-level function mgm2_next with the "
+            "guarded theorem: a round without commitment in which nobody moves leaves a 1-opt assignment. The "
+            "refinement of the asynchronous MGM2 handlers to mgm2_next is NOT a theorem: it is checked on every "
+            "run (r2check_case: mgm2_next iterated from the observed initial assignment with the observed per-node "
+            "draws equals the observed assignment at every cycle boundary of the real execution)")
 META = dict(
-    level_text=('Partial proof (Coq). Proved for every DCOP, min and max, all draws: if one complete MGM cycle (as a function on assignments) changes no value then no variable can improve the global cost by changing alone (variables without neighbour: by their start-time choice), and conversely an improvable variable forces some change. ALSO proved (deepening, P_Mgm3*.v): the refinement of the asynchronous handler model to the cycle function under EVERY schedule, hence mgm_async_no_move_1opt: if no variable changed its value between a reachable configuration where all computations have completed j cycles and one where they have completed j+1, no variable can improve the global cost alone - the full MGM statement (the refinement is additionally checked on every run by the round-level and full-trace correspondences). MGM2: refuted on the code as it is (theorem mgm2_no_move_1opt_refuted, known finding C04-mgm2-idle-after-commitment); no MGM2 1-opt theorem.'),
+    level_text=('Partial proof (Coq). Proved for every DCOP, min and max, all draws: if one complete MGM cycle (as a function on assignments) changes no value then no variable can improve the global cost by changing alone (variables without neighbour: by their start-time choice), and conversely an improvable variable forces some change. ALSO proved (deepening, P_Mgm3*.v): the refinement of the asynchronous handler model to the cycle function under EVERY schedule, hence mgm_async_no_move_1opt: if no variable changed its value between a reachable configuration where all computations have completed j cycles and one where they have completed j+1, no variable can improve the global cost alone - the full MGM statement (the refinement is additionally checked on every run by the round-level and full-trace correspondences). MGM2: refuted on the code as it is (theorem mgm2_no_move_1opt_refuted, known finding C04-mgm2-idle-after-commitment). Deepening 2: a round-level MGM2 function (mgm2_next, checked against the cycle-boundary assignments of every real MGM2 run, refinement to the handlers not proved) with the guarded theorem mgm2_no_commit_no_move_1opt_partial: in a round in which no node committed to a coordinated move, if no variable changes its value then no participating variable can improve the global cost alone (all DCOPs, min/max, all draws).'),
     level_note=("Trusted: Coq kernel/vm_compute, M_Mgm.v / M_Mgm2.v + Net.v as renderings of the Python code, the "
                 "thread-free netdriver, integer costs inside int32."),
     technique="Coq proof over an executable round-level model + round-level and full-trace correspondence",
@@ -60,13 +66,34 @@ def oracle(c, o):
         c["algo"], c["mode"], m["cycle"], m["var"], m["value"], m["before"], m["after"])
 
 
+def coq_mgm2_rcase(c, o):
+    """round-level MGM2 case (M_Mgm2r.r2case): threshold, favor, initial assignment, per-node draws from the
+    first cycle on (the draw spent by on_start on the initial value removed), boundary assignments"""
+    bs = L.boundaries(c, o)
+    n = len(c["vars"])
+    p = c["params"]
+    head = "M_Mgm2r.mkR2Case %s %s %s" % (
+        L.coq_dcop(c), q.z(round(p.get("threshold", 0.5) * 1000)),
+        q.z(["unilateral", "no", "coordinated"].index(p.get("favor", "unilateral"))))
+    if not bs:
+        return head + " [] [] []"
+    orcs = []
+    for i in range(n):
+        dr = list(o["draws"].get(str(i), []))
+        if L.neighbours(c, i) and c["vars"][i].get("init") is None:
+            dr = dr[1:]
+        orcs.append(q.pair(q.z(i), q.zlist(dr)))
+    asg = lambda a: q.lst([q.pair(q.z(i), q.z(a[i])) for i in range(n)])
+    return head + " %s %s %s" % (asg(bs[0]), q.lst(orcs), q.lst([asg(a) for a in bs[1:]]))
+
+
 def coq_case(c, o):
     if c.get("float"):
         return None          # oracle-only stream (non-integer costs): not modelled
     if c["algo"] == "mgm":
         return "CMgm (%s) (%s)" % (L.coq_mgm_case(c, o), L.coq_mgm_rcase(c, o))
     if c["algo"] == "mgm2":
-        return "CMgm2 (%s)" % L.coq_mgm2_case(c, o)
+        return "CMgm2 (%s) (%s)" % (L.coq_mgm2_case(c, o), coq_mgm2_rcase(c, o))
     return None
 
 
@@ -76,7 +103,15 @@ def nontrivial(c, o):
 
 
 def histogram(cases, obs):
-    return L.cycle_histogram(cases, obs)
+    h = L.cycle_histogram(cases, obs)
+    # coverage of the MGM2 round-level correspondence (M_Mgm2r.r2check_case)
+    h["mgm2_round_boundaries_replayed"] = 0
+    h["mgm2_coordinated_value_changes"] = 0
+    for c, o in zip(cases, obs):
+        if c["algo"] == "mgm2" and "events" in o:
+            h["mgm2_round_boundaries_replayed"] += max(0, len(L.boundaries(c, o)) - 1)
+            h["mgm2_coordinated_value_changes"] += sum(1 for e in o["events"] if e[0] == "val" and len(e) > 5)
+    return h
 
 
 def classify(c, o, msg):
